@@ -507,6 +507,12 @@ def run_program(rng, tag, nops, chaos_p, fail_at=None, fail_exc=None, stats=None
         return
     CH.reset(rng, chaos_p, fail_at, fail_exc)
     objs = CH.objects
+    import warnings
+    wctx = warnings.catch_warnings()
+    wctx.__enter__()
+    # some programs run with warnings turned into errors (or shown): the C code issues
+    # warnings on a few error paths
+    warnings.simplefilter(rng.choice(["ignore", "ignore", "ignore", "error", "always"]))
     try:
         for i in range(rng.randint(1, 3)):
             try:
@@ -540,6 +546,7 @@ def run_program(rng, tag, nops, chaos_p, fail_at=None, fail_exc=None, stats=None
     finally:
         CH.enabled = False
         del objs[:]
+        wctx.__exit__(None, None, None)
 
 
 def _one_op(rng, op, o, nm, objs, handlers, Main, Partner, names):
